@@ -43,34 +43,34 @@ POST = [("same-language-on-utf16",
 TWIN = [("off-by-one-unit", "set_admits(term.value, c) == terms_match_units(result, units(c + 1))")]
 
 UNITS = [
-    Contract(f"{FIX}:_FixForUTF16Regex._convert_to_surrogates", ["C17"], specs=S,
+    Contract(f"{FIX}:_FixForUTF16Regex._convert_to_surrogates", ["C17", "C11"], specs=S,
              ensures=[("pair-decodes-to-the-code-point", "decode_pair(result[0], result[1]) == code"),
                       ("is-the-utf16-pair", "result[0] == hi(code) and result[1] == lo(code)")],
              twins=[("swapped", "decode_pair(result[1], result[0]) == code")]),
 
     # one range s-e (s <= e), not complementing
-    Contract(f"{FIX}:_FixForUTF16Regex._expand_char_set_to_surrogates_if_necessary", ["C17", "C02"], specs=S,
+    Contract(f"{FIX}:_FixForUTF16Regex._expand_char_set_to_surrogates_if_necessary", ["C17", "C02", "C11"], specs=S,
              name="expand_char_set[one range]", ghost={"c": "int"},
              args={"term": term_builder(charset("False", [("s0", "e0")]), ["s0", "e0"])},
              requires=[SCALAR.format("c"), "s0 <= e0"],
              ensures=POST, twins=TWIN, use_as_callee=False, inline=[f"{FIX}:_FixForUTF16Regex._convert_to_surrogates"],
              replay="native.c17:replay_charset"),
     # a single character
-    Contract(f"{FIX}:_FixForUTF16Regex._expand_char_set_to_surrogates_if_necessary", ["C17", "C02"], specs=S,
+    Contract(f"{FIX}:_FixForUTF16Regex._expand_char_set_to_surrogates_if_necessary", ["C17", "C02", "C11"], specs=S,
              name="expand_char_set[single character]", ghost={"c": "int"},
              args={"term": term_builder(charset("False", [("s0", None)]), ["s0"])},
              requires=[SCALAR.format("c")],
              ensures=POST, twins=TWIN, use_as_callee=False, inline=[f"{FIX}:_FixForUTF16Regex._convert_to_surrogates"],
              replay="native.c17:replay_charset"),
     # two ranges
-    Contract(f"{FIX}:_FixForUTF16Regex._expand_char_set_to_surrogates_if_necessary", ["C17", "C02"], specs=S,
+    Contract(f"{FIX}:_FixForUTF16Regex._expand_char_set_to_surrogates_if_necessary", ["C17", "C02", "C11"], specs=S,
              name="expand_char_set[two ranges]", ghost={"c": "int"},
              args={"term": term_builder(charset("False", [("s0", "e0"), ("s1", "e1")]), ["s0", "e0", "s1", "e1"])},
              requires=[SCALAR.format("c"), "s0 <= e0", "s1 <= e1"],
              ensures=POST, twins=TWIN, use_as_callee=False, inline=[f"{FIX}:_FixForUTF16Regex._convert_to_surrogates"],
              replay="native.c17:replay_charset", max_paths=20000),
     # complementing sets: recorded finding (one astral character is two units for a UTF-16 engine)
-    Contract(f"{FIX}:_FixForUTF16Regex._expand_char_set_to_surrogates_if_necessary", ["C17", "C02"], specs=S,
+    Contract(f"{FIX}:_FixForUTF16Regex._expand_char_set_to_surrogates_if_necessary", ["C17", "C02", "C11"], specs=S,
              name="expand_char_set[complementing]", ghost={"c": "int"},
              args={"term": term_builder(charset("True", [("s0", "e0")]), ["s0", "e0"])},
              # the regex parser rejects complementing sets with characters above the BMP (C16 lemma)
@@ -79,7 +79,7 @@ UNITS = [
              replay="native.c17:replay_charset"),
 
     # character literals
-    Contract(f"{FIX}:_FixForUTF16Regex._character_literal_to_surrogates_if_necessary", ["C17", "C02"], specs=S,
+    Contract(f"{FIX}:_FixForUTF16Regex._character_literal_to_surrogates_if_necessary", ["C17", "C02", "C11"], specs=S,
              name="character_literal", ghost={"c": "int"},
              args={"term": term_builder("retree_types.Term(value=retree_types.Char(character=chr(s0)), quantifier=Q)",
                                         ["s0"])},
@@ -95,4 +95,4 @@ UNITS = [
 # the language postconditions belong to C17 only; for C02 these units contribute their crash obligations
 for _u in UNITS:
     if "C02" in _u.props:
-        _u.ensures_only_for = ["C17"]
+        _u.ensures_only_for = ["C17", "C11"]  # C11: the JSON schema patterns are these rewritings (anchor parse/retree/_fix.py)
